@@ -125,7 +125,8 @@ impl<'r> Printer<'r> {
         let n = 1 + rng.below(2);
         let mut s = String::new();
         for _ in 0..n {
-            match rng.below(12) {
+            match rng.below(13) {
+                12 => s.push_str("\r\n"),
                 0 | 1 | 2 | 3 | 4 => s.push(' '),
                 5 => s.push_str("  "),
                 6 => s.push('\t'),
